@@ -2,9 +2,9 @@ package rules
 
 import (
 	"bytes"
-	"go/constant"
 	"encoding/hex"
 	"fmt"
+	"go/constant"
 
 	"golang.org/x/tools/go/ssa"
 
